@@ -44,7 +44,7 @@ KEYS = {
   'prep':  {'tokens': (['C07'], [])},
   'hashdiff': {'h1': (['C09'], []), 'h2': (['C09'], [])},
   'ecache': {'out': (['C16'], [])},
-  'dialog': {'out': (['C07', 'C06', 'C05'], [])},
+  'dialog': {'out': (['C07', 'C06', 'C05', 'C03'], [])},
   'conc': {'out': (['C06', 'C05'], [])},
   'procuci': {'out': (['C06', 'C07'], [])},
   'perftbin': {'perft': (['C01'], ['C01'])},
@@ -53,12 +53,12 @@ KEYS = {
 }
 ASSERT = {
   'gen':  {'p.c17': ['C17'], 'p.shape': ['C10']},
-  'mv':   {'p.hash': ['C09'], 'p.copy': ['C02'], 'p.reload': ['C09', 'C11', 'C02'], 'p.shape': ['C10', 'C02'], 'p.strback': ['C03'], 'p.strshape': ['C10', 'C03']},
+  'mv':   {'p.hash': ['C09'], 'p.copy': ['C02'], 'p.reload': ['C09', 'C11', 'C02'], 'p.shape': ['C10', 'C02'], 'p.strback': ['C03'], 'p.strshape': ['C10', 'C03'], 'p.attsame': ['C12']},
   'play': {'p.hash': ['C09'], 'p.replayable': ['C03'], 'p.shape': ['C10']},
   'null': {'p.nullhash': ['C09'], 'p.nullback': ['C09', 'C10']},
   'fen':  {'p.total': ['C11'], 'p.roundtrip': ['C11'], 'p.canon': ['C11']},
   'eval': {'p.mirror': ['C15'], 'p.bound': ['C15'], 'p.mirrorpub': ['C15', 'C16']},
-  'evalc': {'p.transparent': ['C16']},
+  'evalc': {'p.transparent': ['C16'], 'p.object': ['C16']},
   'tt':   {'p.sound': ['C14'], 'p.absent': ['C14'], 'p.aftersave': ['C14']},
   'order': {'p.perm': ['C19'], 'p.sorted': ['C19'], 'p.strscore': ['C03', 'C19']},
   'time': {'p.ltclock': ['C08', 'C05'], 'p.ltmovetime': ['C08', 'C05'], 'p.indep': ['C08']},
@@ -67,7 +67,7 @@ ASSERT = {
   'gof':  {'p.total': ['C07'], 'p.faithful': ['C07']},
   'hashdiff': {'p.distinct': ['C09']},
   'ecache': {'p.keyexact': ['C16']},
-  'dialog': {'p.nopanic': ['C07', 'C06'], 'p.answered': ['C06', 'C05'], 'p.bestlegal': ['C04', 'C06'], 'p.onebest': ['C05', 'C06']},
+  'dialog': {'p.nopanic': ['C07', 'C06'], 'p.answered': ['C06', 'C05'], 'p.bestlegal': ['C04', 'C06'], 'p.onebest': ['C05', 'C06'], 'p.posexact': ['C03']},
   'timed': {'p.intime': ['C05']},
   'conc': {'p.live': ['C06', 'C05'], 'p.prompt': ['C06', 'C05'], 'p.whole': ['C06'], 'p.bestlegal': ['C04', 'C06']},
   'procuci': {'p.live': ['C06', 'C07'], 'p.prompt': ['C06'], 'p.whole': ['C06']},
@@ -77,6 +77,8 @@ ASSERT = {
 }
 # operations whose answers are compared even outside the legal-position domain
 ALWAYS = {'fen', 'att', 'magic', 'tt', 'time', 'go', 'gof', 'gotime', 'prep', 'search', 'facts', 'hashdiff', 'ecache', 'dialog', 'timed', 'conc', 'deep', 'deepseq', 'procuci'}
+# operations where, outside the domain (s.dom=0), only the assertions are judged (the property claims totality there, not values)
+TOTAL_ONLY_OOD = {'go': {'p.total'}, 'gof': {'p.total'}, 'fen': {'p.total'}}
 
 
 def sh(cmd, cwd=None, env=None, timeout=None, stdin=None):
@@ -196,20 +198,61 @@ def lean_namespace_of(path):
     return m.group(1) if m else ''
 
 
-def obligations(prop, tier, log):
-    """Build the property's theorem modules (Props/<prop>*.lean) against the regenerated definitions."""
-    paths = sorted(glob.glob(os.path.join(LEAN, 'Clemens', 'Props', prop + '*.lean')))
-    mods = ['Clemens.Props.' + os.path.basename(p)[:-5] for p in paths]
-    res = {'modules': mods, 'theorems': [], 'ok': True, 'failed': [], 'axioms': {}, 'bad_axioms': [], 'forbidden': []}
-    if not paths:
-        res['missing'] = True
-        return res
+# Modules that only state tie T1 (the definitions regenerated from the Go text equal the hand-written model definitions).
+# The property theorems are about the hand-written model, which is tied to the code by the correspondence runs (T3) as well;
+# when a T1 tie no longer checks (a rewrite of a leaf function), the property is still decided through T3, the lost tie is
+# recorded in the evidence and the correspondence sample for that property is enlarged.
+TIE_MODULES = {'C10c', 'C12c', 'C14b', 'C19b'}
+# Second route for a property whose theorems are stated on a regenerated definition: the same statements on the hand-written
+# model (theorem modules) together with the correspondence keys that compare that model with the code.
+FALLBACK = {'C08': {'needs': 'search.calculateTime', 'modules': ['M08'], 'alt_keys': {'budget': 'budgeth'}}}
+
+
+def thm_names(paths):
+    out = []
     for path in paths:
         ns = lean_namespace_of(path)
-        res['theorems'] += [(ns + '.' + n) if ns else n for n in theorems_in(path)]
-    with Lock(os.path.join(WORK, '.lake.lock')):
-        rc, out = sh(['lake', 'build'] + mods, cwd=LEAN, timeout=6000)
-    log.append(('lake build ' + ' '.join(mods), rc, out[-4000:]))
+        out += [(ns + '.' + n) if ns else n for n in theorems_in(path)]
+    return out
+
+
+def obligations(prop, tier, log, untranslated=()):
+    """Build the property's theorem modules (Props/<prop>*.lean) against the regenerated definitions."""
+    allpaths = sorted(glob.glob(os.path.join(LEAN, 'Clemens', 'Props', prop + '*.lean')))
+    paths = [p for p in allpaths if os.path.basename(p)[:-5] not in TIE_MODULES]
+    tiepaths = [p for p in allpaths if os.path.basename(p)[:-5] in TIE_MODULES]
+    mods = ['Clemens.Props.' + os.path.basename(p)[:-5] for p in paths]
+    res = {'modules': mods, 'theorems': [], 'ok': True, 'failed': [], 'axioms': {}, 'bad_axioms': [], 'forbidden': [],
+           'ties_lost': [], 'route': 'primary', 'alt_keys': {}}
+    if not allpaths:
+        res['missing'] = True
+        return res
+    res['theorems'] = thm_names(paths)
+    fb = FALLBACK.get(prop)
+    rc, out = 0, ''
+    if fb and fb['needs'] in untranslated:
+        rc, out = 1, 'the regenerated definition of %s is a stub (the function left the translatable subset)' % fb['needs']
+    elif mods:
+        with Lock(os.path.join(WORK, '.lake.lock')):
+            rc, out = sh(['lake', 'build'] + mods, cwd=LEAN, timeout=6000)
+        log.append(('lake build ' + ' '.join(mods), rc, out[-4000:]))
+    if rc != 0 and fb:
+        # second route: the hand-written model's theorems; its tie to the code is the correspondence on the alternative keys
+        fmods = ['Clemens.Props.' + m for m in fb['modules']]
+        with Lock(os.path.join(WORK, '.lake.lock')):
+            rc2, out2 = sh(['lake', 'build'] + fmods, cwd=LEAN, timeout=6000)
+        log.append(('lake build ' + ' '.join(fmods) + ' (second route)', rc2, out2[-4000:]))
+        res['primary_output'] = out[-3000:]
+        if rc2 == 0:
+            res['route'] = 'fallback'
+            res['alt_keys'] = fb['alt_keys']
+            res['primary_failed'] = sorted(set(n for n in res['theorems'] if re.search(r'\b' + re.escape(n.split('.')[-1]) + r'\b', out))) or ['<' + ' '.join(mods) + '>']
+            mods = fmods
+            res['modules'] = mods
+            res['theorems'] = thm_names([os.path.join(LEAN, 'Clemens', 'Props', m + '.lean') for m in fb['modules']])
+            rc = 0
+        else:
+            out = out + '\n' + out2
     if rc != 0:
         res['ok'] = False
         res['output'] = out[-4000:]
@@ -217,6 +260,18 @@ def obligations(prop, tier, log):
         failed = [n for n in res['theorems'] if re.search(r'\b' + re.escape(n.split('.')[-1]) + r'\b', out)]
         res['failed'] = sorted(set(failed)) or ['<build of ' + ' '.join(mods) + '>']
         return res
+    for tp in tiepaths:
+        tm = 'Clemens.Props.' + os.path.basename(tp)[:-5]
+        with Lock(os.path.join(WORK, '.lake.lock')):
+            rct, outt = sh(['lake', 'build', tm], cwd=LEAN, timeout=6000)
+        log.append(('lake build ' + tm + ' (tie T1)', rct, outt[-3000:]))
+        if rct == 0:
+            mods.append(tm)
+            res['theorems'] += thm_names([tp])
+        else:
+            names = thm_names([tp])
+            lost = [n for n in names if re.search(r'\b' + re.escape(n.split('.')[-1]) + r'\b', outt)] or ['<' + tm + '>']
+            res['ties_lost'].append({'module': tm, 'theorems': lost, 'output': outt[-1500:]})
     # forbidden constructs anywhere in the Lean sources
     srcs = glob.glob(os.path.join(LEAN, 'Clemens', '**', '*.lean'), recursive=True)
     bad = []
@@ -240,7 +295,7 @@ def obligations(prop, tier, log):
         with Lock(os.path.join(WORK, '.lake.lock')):
             rc, out = sh(['lake', 'env', 'lean', tmp], cwd=LEAN, timeout=3000)
         log.append(('#print axioms', rc, out[-4000:]))
-        for m in re.finditer(r"'([^']+)' (depends on axioms: \[([^\]]*)\]|does not depend on any axioms)", out.replace('\n', ' ')):
+        for m in re.finditer(r"'(\S+)' (depends on axioms: \[([^\]]*)\]|does not depend on any axioms)", out.replace('\n', ' ')):
             ax = [a.strip() for a in (m.group(3) or '').split(',') if a.strip()]
             res['axioms'][m.group(1)] = ax
             for a in ax:
@@ -260,6 +315,34 @@ def obligations(prop, tier, log):
     return res
 
 
+class HarnessCrash(Exception):
+    """the harness process died while executing an operation (the engine panicked in one of its own goroutines, or killed the
+    process): op is the operation it was executing, confirmed tells whether running that operation alone dies again"""
+    def __init__(self, op, output, confirmed):
+        Exception.__init__(self, 'harness died executing: %s' % (op or '?')[:200])
+        self.op, self.output, self.confirmed = op, output, confirmed
+
+
+def crash_culprit(wdir, tag, opsf, out):
+    cur = opsf + '.cur'
+    op = ''
+    if os.path.exists(cur):
+        op = open(cur).read().strip()
+    confirmed = False
+    if op:
+        one = os.path.join(wdir, tag + '.crash.ops')
+        with open(one, 'w') as f:
+            f.write(op + '\n')
+        try:
+            rc, out2 = sh([HARNESS, 'exec', one, os.path.join(wdir, tag + '.crash.go')], env=GOENV, timeout=600)
+        except subprocess.TimeoutExpired:
+            rc, out2 = 1, 'timeout'
+        confirmed = rc != 0
+        if confirmed:
+            out = out2
+    return HarnessCrash(op, out[-2500:], confirmed)
+
+
 def run_ops(wdir, tag, gen_args=None, ops_lines=None):
     """Generate (or take) operation lines, run them through Go and Lean, return (ops, go, lean, stats)."""
     os.makedirs(wdir, exist_ok=True)
@@ -272,8 +355,21 @@ def run_ops(wdir, tag, gen_args=None, ops_lines=None):
             f.write('\n'.join(ops_lines) + '\n')
         rc, out = sh([HARNESS, 'exec', opsf + '.in', gof], env=GOENV, timeout=3000)
         shutil.move(opsf + '.in', opsf)
+        if rc != 0 and len(ops_lines) == 1:
+            raise HarnessCrash(ops_lines[0], out[-2500:], True)
+        if rc != 0:
+            # find the line: execute them one at a time
+            for l in ops_lines:
+                one = os.path.join(wdir, tag + '.one.ops')
+                with open(one, 'w') as f:
+                    f.write(l + '\n')
+                rc1, out1 = sh([HARNESS, 'exec', one, gof + '.one'], env=GOENV, timeout=600)
+                if rc1 != 0:
+                    raise HarnessCrash(l, out1[-2500:], True)
     else:
         rc, out = sh([HARNESS, 'ops'] + gen_args + [opsf, gof, statf], env=GOENV, timeout=int(os.environ.get('VERIF_OP_TIMEOUT', '3600')))
+        if rc != 0:
+            raise crash_culprit(wdir, tag, opsf, out)
     if rc != 0:
         raise RuntimeError('harness failed: ' + out[-2000:])
     with open(opsf, 'rb') as fin, open(leanf, 'wb') as fout:
@@ -293,8 +389,80 @@ def run_ops(wdir, tag, gen_args=None, ops_lines=None):
     return ops, go, lean, stats
 
 
-def compare(prop, ops, go, lean):
-    """Return (relevant_count, in_domain_distinct, mismatches) for one property."""
+def _search_view(fields):
+    """projection of the `search` answer (`;`-joined searches, each best=…|nodes=…|polls=…|info/info/…) onto some of its parts"""
+    def proj(v):
+        if v is None:
+            return None
+        outs = []
+        for one in v.split(';'):
+            parts = one.split('|')
+            keep = []
+            for p in parts:
+                if p.startswith('best='):
+                    if 'best' in fields:
+                        keep.append(p)
+                elif p.startswith('nodes=') or p.startswith('polls='):
+                    if 'nodes' in fields:
+                        keep.append(p)
+                elif 'pv' in fields:
+                    # info lines: depth, score and pv without the node counts
+                    keep.append('/'.join(re.sub(r'_nodes_\d+', '', l) for l in p.split('/')))
+            outs.append('|'.join(keep))
+        return ';'.join(outs)
+    return proj
+
+
+def _dialog_protocol(v):
+    """the protocol lines of a dialogue transcript (readyok, uciok, bestmove, unclassifiable) without the informational ones"""
+    if v is None:
+        return None
+    r = ''.join(c for c in v if c in 'RUB?')
+    return r or '-'
+
+
+# What each property reads from a compound answer.  A property is judged on the part of the answer it speaks about: C13 on
+# the move answered, C04 on the move and the principal variations, C05 on all of it (node and poll counts); C06/C05 on the
+# protocol lines of a dialogue, C07 on every line including the informational ones.
+def _sorted_words(v):
+    """a move list as a multiset (the order in which moves are generated is not part of the set-valued properties)"""
+    if v is None or v == '-':
+        return v
+    return ','.join(sorted(v.split(',')))
+
+
+def _dump_board(v):
+    """a position dump without the counters and the hash: what the board-consistency property (C10) speaks about.
+    A `null` answer holds several dumps separated by `|`."""
+    if v is None:
+        return None
+    outs = []
+    for one in v.split('|'):
+        secs = one.split(';')
+        if len(secs) == 5:
+            f = secs[3].split(',')
+            secs = secs[:3] + [','.join(f[:3])]
+            outs.append(';'.join(secs))
+        else:
+            outs.append(one)
+    return '|'.join(outs)
+
+
+VIEWS = {
+  ('null', 'null'): {'C10': _dump_board}, ('null', 'back'): {'C10': _dump_board}, ('mv', 'dump'): {'C10': _dump_board},
+  ('play', 'dump'): {'C10': _dump_board},
+  ('gen', 'pseudo'): {'C01': _sorted_words}, ('gen', 'legal'): {'C01': _sorted_words, 'C10': _sorted_words},
+  ('gen', 'caps'): {'C17': _sorted_words}, ('gen', 'capsfilter'): {'C17': _sorted_words},
+  ('mv', 'legal'): {'C01': _sorted_words, 'C10': _sorted_words},
+  ('search', 'out'): {'C13': _search_view({'best'}), 'C04': _search_view({'best', 'pv'})},
+  ('dialog', 'out'): {'C06': _dialog_protocol, 'C05': _dialog_protocol},
+}
+
+
+def compare(prop, ops, go, lean, alt_keys=None):
+    """Return (relevant_count, in_domain_distinct, mismatches) for one property.
+    alt_keys: correspondence keys read from another model key (the second route of a property)."""
+    alt_keys = alt_keys or {}
     mism = []
     relevant = 0
     distinct = set()
@@ -314,6 +482,15 @@ def compare(prop, ops, go, lean):
         if l.get('s.dom') == '0' and kind not in ALWAYS:
             ood += 1
             continue
+        if l.get('s.dom') == '0' and kind in TOTAL_ONLY_OOD:
+            # outside the domain the property makes an exact claim about: only the Go-side assertions (no crash) are judged
+            ood += 1
+            if 'harness_recovered' in g:
+                mism.append({'kind': 'assert', 'i': i, 'op': op, 'key': 'panic', 'go': go[i], 'lean': lean[i]})
+            for k, ps in asserts.items():
+                if prop in ps and g.get(k) == '0' and k in TOTAL_ONLY_OOD[kind]:
+                    mism.append({'kind': 'assert', 'i': i, 'op': op, 'key': k, 'go': go[i][:600], 'lean': lean[i][:600]})
+            continue
         relevant += 1
         distinct.add(op)
         if 'harness_recovered' in g:
@@ -321,12 +498,18 @@ def compare(prop, ops, go, lean):
             continue
         for k, (corr, spec) in keys.items():
             if prop in corr:
-                gv, lv = g.get(k), l.get('m.' + k)
+                gv, lv = g.get(k), l.get('m.' + alt_keys.get(k, k))
+                view = VIEWS.get((kind, k), {}).get(prop)
+                if view:
+                    gv, lv = view(gv), view(lv)
                 if (gv is not None or lv is not None) and gv != lv:
                     # a missing key on one side counts only when the other side has it
                     mism.append({'kind': 'corr', 'i': i, 'op': op, 'key': k, 'go': gv, 'lean': lv})
             if prop in spec:
                 gv, lv = g.get(k), l.get('s.' + k)
+                view = VIEWS.get((kind, k), {}).get(prop)
+                if view:
+                    gv, lv = view(gv), view(lv)
                 if lv is not None and gv != lv:
                     mism.append({'kind': 'spec', 'i': i, 'op': op, 'key': k, 'go': gv, 'lean': lv})
         for k, ps in asserts.items():
